@@ -7,7 +7,10 @@
 #![allow(clippy::all)]
 
 mod bits;
+mod comps;
+mod gen_tuples;
 mod sched;
+mod world_engine;
 
 use std::io::{BufRead, BufWriter, Write};
 
@@ -31,6 +34,7 @@ impl Out {
 fn run_case(args: &[u64]) -> Out {
     let mut out = Out::new();
     match args.first() {
+        Some(1) => world_engine::run(&args[1..], &mut out),
         Some(19) => bits::run(&args[1..], &mut out),
         Some(6) => sched::run_borrow(&args[1..], &mut out),
         Some(60) => sched::stress_borrow(&args[1..], &mut out),
@@ -41,6 +45,13 @@ fn run_case(args: &[u64]) -> Out {
 
 fn main() {
     let argv: Vec<String> = std::env::args().collect();
+    if argv.len() >= 2 && argv[1] == "universe" {
+        // align size rank per component type
+        let u = comps::universe();
+        let v: Vec<String> = u.iter().map(|(a, s, r)| format!("{} {} {}", a, s, r)).collect();
+        println!("{} {}", u.len(), v.join(" "));
+        return;
+    }
     if argv.len() < 3 || argv[1] != "run" {
         eprintln!("usage: hv run <cases-file>");
         std::process::exit(2);
@@ -75,5 +86,7 @@ fn main() {
             write!(w, " ! {}", out.oracle.join(" | ")).unwrap();
         }
         w.write_all(b"\n").unwrap();
+        // a crash of the implementation must not lose the lines before it
+        w.flush().unwrap();
     }
 }
